@@ -114,30 +114,32 @@ def run(tier, corrupt=False):
                                 # the same bytes are prescribed when the writer has seen a failed serialize() of this object before
                                 cases.append({"kind": "ser", "prog": r["prog"], "san0": r["san0"], "fuel": -1, "obj": r["obj"], "salt": i, "prefail": (i // 3) % 4})
                                 kept.append(r)
-                    imp, results = run_drivers_parallel(src, wt, accepted, types, cases)
-                    if imp:
-                        v.violation(f"generated package not importable ({variant} defaults)", imp.strip().splitlines()[-1], {"trace": imp})
-                        continue
-                    for r, c, o in zip(kept, cases, results):
-                        nchecked += 1
-                        if "harness_error" in o:
-                            raise MachineryError(o["harness_error"])
-                        if corrupt and nchecked == 50:
-                            o = dict(o, bytes=o["bytes"] + [1])
-                        key = f"{r['prog']} ({variant}{', writer reused after a failed call' if 'prefail' in c else ''}) obj={json.dumps(r['obj'], sort_keys=True)[:300]} san0={r['san0']}"
-                        case = {"prog": r["prog"], "variant": variant, "san0": r["san0"], "obj": r["obj"], "model_bytes": r["bytes"], "observed": {k: o.get(k) for k in ("ctor_exc", "exc", "bytes", "san_end", "family", "action")}}
-                        if o["ctor_exc"]:
-                            v.violation(f"{r['prog']} ({variant}) constructor " + o["ctor_exc"][:60] + " obj=" + json.dumps(r["obj"], sort_keys=True)[:200],
-                                        f"a constructible-by-declaration object cannot be constructed: {o['ctor_exc']}", case)
-                            continue
-                        if o["exc"] != r["exc"]:
-                            v.violation(key, f"serialize raised {o['exc'] or 'nothing'} ({o.get('exc_msg', '')}); the XML semantics give {r['exc'] or 'a complete serialization'}", case)
-                            continue
-                        if o["bytes"] != r["bytes"]:
-                            v.violation(key, f"bytes differ from the wire format the XML prescribes: got {o['bytes']}, expected {r['bytes']}", case)
-                        p = next(q for q in progs if q["name"] == r["prog"])
-                        if p["kind"] == "packet" and (o.get("family") != p["family"] or o.get("action") != p["action"]):
-                            v.violation(f"{r['prog']} family/action", f"reports {o.get('family')}/{o.get('action')}, declared {p['family']}/{p['action']}", case)
+                    BATCH = 60000
+                    for b0 in range(0, len(cases), BATCH):
+                        imp, results = run_drivers_parallel(src, wt, accepted, types, cases[b0:b0 + BATCH])
+                        if imp:
+                            v.violation(f"generated package not importable ({variant} defaults)", imp.strip().splitlines()[-1], {"trace": imp})
+                            break
+                        for r, c, o in zip(kept[b0:b0 + BATCH], cases[b0:b0 + BATCH], results):
+                            nchecked += 1
+                            if "harness_error" in o:
+                                raise MachineryError(o["harness_error"])
+                            if corrupt and nchecked == 50:
+                                o = dict(o, bytes=o["bytes"] + [1])
+                            key = f"{r['prog']} ({variant}{', writer reused after a failed call' if 'prefail' in c else ''}) obj={json.dumps(r['obj'], sort_keys=True)[:300]} san0={r['san0']}"
+                            case = {"prog": r["prog"], "variant": variant, "san0": r["san0"], "obj": r["obj"], "model_bytes": r["bytes"], "observed": {k: o.get(k) for k in ("ctor_exc", "exc", "bytes", "san_end", "family", "action")}}
+                            if o["ctor_exc"]:
+                                v.violation(f"{r['prog']} ({variant}) constructor " + o["ctor_exc"][:60] + " obj=" + json.dumps(r["obj"], sort_keys=True)[:200],
+                                            f"a constructible-by-declaration object cannot be constructed: {o['ctor_exc']}", case)
+                                continue
+                            if o["exc"] != r["exc"]:
+                                v.violation(key, f"serialize raised {o['exc'] or 'nothing'} ({o.get('exc_msg', '')}); the XML semantics give {r['exc'] or 'a complete serialization'}", case)
+                                continue
+                            if o["bytes"] != r["bytes"]:
+                                v.violation(key, f"bytes differ from the wire format the XML prescribes: got {o['bytes']}, expected {r['bytes']}", case)
+                            p = next(q for q in progs if q["name"] == r["prog"])
+                            if p["kind"] == "packet" and (o.get("family") != p["family"] or o.get("action") != p["action"]):
+                                v.violation(f"{r['prog']} family/action", f"reports {o.get('family')}/{o.get('action')}, declared {p['family']}/{p['action']}", case)
             # ---- pattern V: random larger objects (arrays <= 6, strings <= 12 arbitrary Unicode, random integers), judged by TLC in given-object mode
             import random
             rng = random.Random(seed() * 7919 + 2)
